@@ -307,10 +307,11 @@ var errInjected = errors.New("injected callback failure")
 // ---- the run -------------------------------------------------------------------
 
 type c19Result struct {
-	viol   *Violation
-	ops    int
-	cbErrs int64
-	hash   uint64
+	viol     *Violation
+	ops      int
+	cbErrs   int64
+	cbPanics int64
+	hash     uint64
 }
 
 func newContainer(w *C19World, m *model, nextID *int) (cmap, *jschema.StringSet) {
@@ -455,11 +456,27 @@ func c19Task(w *C19World, res *c19Result) {
 			cm.Delete(k)
 			m.del(k)
 		case "filter":
+			// F-cb-panic: the predicate panics at its FailAt-th invocation and the
+			// caller recovers (user code failing inside the locked region). What the
+			// container holds afterwards is judged narrowly, see below.
 			var visited []int
-			cm.Filter(func(kk, id int) bool {
-				visited = append(visited, kk)
-				return uint64(op.Mask)>>uint(kk)&1 == 1
-			})
+			threw := false
+			func() {
+				defer func() {
+					if r := recover(); r != nil && !threw {
+						panic(r)
+					}
+				}()
+				cm.Filter(func(kk, id int) bool {
+					visited = append(visited, kk)
+					if op.FailAt > 0 && len(visited) == op.FailAt {
+						threw = true
+						res.cbPanics++
+						panic(errInjected)
+					}
+					return uint64(op.Mask)>>uint(kk)&1 == 1
+				})
+			}()
 			var wantVisited []int
 			var kept []modelEntry
 			for _, e := range m.e {
@@ -467,6 +484,36 @@ func c19Task(w *C19World, res *c19Result) {
 				if uint64(op.Mask)>>uint(e.k)&1 == 1 {
 					kept = append(kept, e)
 				}
+			}
+			if threw {
+				// The property does not fix how far a Filter whose predicate panicked
+				// got. Judged: the predicate was offered the entries in order up to the
+				// panic; afterwards the container is still *some* insertion-ordered
+				// dictionary: what it iterates is a sub-sequence of the old content
+				// (same values, no key twice) that still holds every entry the
+				// predicate did not reject; Len, Has/Get and JSON must agree with that
+				// iteration (c19CheckMap below, against the re-read model).
+				wantVisited = wantVisited[:op.FailAt]
+				rejected := map[int]bool{}
+				for _, kk := range visited[:len(visited)-1] {
+					if uint64(op.Mask)>>uint(kk)&1 == 0 {
+						rejected[kk] = true
+					}
+				}
+				var obs []modelEntry
+				cm.EachSafe(func(kk, id int) { obs = append(obs, modelEntry{kk, id}) })
+				j := 0
+				for _, e := range m.e {
+					if j < len(obs) && obs[j] == e {
+						j++
+					} else if !rejected[e.k] {
+						fail(i, op, "after a Filter whose predicate panicked an entry the predicate had not rejected is gone", fmt.Sprint(m.e), fmt.Sprint(obs))
+					}
+				}
+				if j != len(obs) {
+					fail(i, op, "after a Filter whose predicate panicked the iteration is not a sub-sequence of the old content (ghost, duplicate or reordered entry)", fmt.Sprint(m.e), fmt.Sprint(obs))
+				}
+				kept = obs
 			}
 			if fmt.Sprint(visited) != fmt.Sprint(wantVisited) {
 				fail(i, op, "Filter did not offer every entry once, in order, to the predicate", fmt.Sprint(wantVisited), fmt.Sprint(visited))
@@ -741,6 +788,9 @@ func genC19(seed uint64, maxOps int) *World {
 				op.FailAt = 1 + r.n(nk)
 			}
 		}
+		if op.Kind == "filter" && r.pct(25) {
+			op.FailAt = 1 + r.n(nk)
+		}
 		cw.Ops = append(cw.Ops, op)
 	}
 	b, _ := json.Marshal(cw)
@@ -764,7 +814,7 @@ func enumerateC19(container string, n int, f func(*C19World)) {
 		alphabet = append(alphabet, C19Op{Kind: "set", Key: k}, C19Op{Kind: "delete", Key: k})
 	}
 	alphabet = append(alphabet, C19Op{Kind: "update", Key: 0}, C19Op{Kind: "filter", Mask: 0b0101}, C19Op{Kind: "filter", Mask: 0b0010},
-		C19Op{Kind: "map"}, C19Op{Kind: "map", FailAt: 2}, C19Op{Kind: "each", FailAt: 1}, C19Op{Kind: "find", Key: 1})
+		C19Op{Kind: "map"}, C19Op{Kind: "map", FailAt: 2}, C19Op{Kind: "each", FailAt: 1}, C19Op{Kind: "find", Key: 1}, C19Op{Kind: "filter", Mask: 0b0100, FailAt: 2})
 	idx := make([]int, n)
 	for {
 		cw := &C19World{Container: container, Init: "zero"}
@@ -796,6 +846,9 @@ func c19Describe(cw *C19World) string {
 		switch op.Kind {
 		case "filter":
 			s += fmt.Sprintf("(keep=%04b)", op.Mask)
+			if op.FailAt > 0 {
+				s += fmt.Sprintf("(panic@%d)", op.FailAt)
+			}
 		case "map", "each":
 			if op.FailAt > 0 {
 				s += fmt.Sprintf("(fail@%d)", op.FailAt)
@@ -871,6 +924,7 @@ func c19WorkerMain(args []string) {
 		sum.Ops += int64(res.ops)
 		sum.Steps += simrt.GetStats().Steps
 		sum.Faults["callback-error"] += res.cbErrs
+		sum.Faults["callback-panic"] += res.cbPanics
 		// non-trivial: the history changed the container at least twice and
 		// contains a delete/filter/failing callback; distinct by final content + op kinds
 		nt := false
